@@ -231,6 +231,8 @@ def gen_clf_spec(g: SimRng, kind, classes, allow_cost=True):
         cm = gen_cost_matrix(g, k)
         if cm is not None:
             p["cost_matrix"] = cm
+    if kind in ("pwc", "skl_clf") and g.chance(0.2):
+        p["missing_label"] = -1.0  # a non-NaN sentinel (labels are never negative)
     if kind == "pwc":
         r = g.random()
         if r < 0.35:
@@ -255,11 +257,14 @@ def gen_clf_spec(g: SimRng, kind, classes, allow_cost=True):
     if kind == "sliding":
         p.pop("cost_matrix", None)
         inner = gen_clf_spec(g, g.pick(["pwc", "skl_clf"]), classes, allow_cost=False)
+        inner["params"].pop("missing_label", None)
         inner["params"]["random_state"] = p["random_state"]
         p.update(window_size=g.pick([1, 2, 3, 5, 8, None]), only_labeled=g.chance(0.5))
         return {"kind": "sliding", "inner": inner, "params": p}
     if kind == "annot_ens":
         members = [gen_clf_spec(g, g.pick(["pwc", "skl_clf"]), classes, allow_cost=False) for _ in range(g.pick([2, 3]))]
+        for m in members:
+            m["params"].pop("missing_label", None)
         p["voting"] = g.pick(["hard", "soft"])
         return {"kind": "annot_ens", "members": members, "params": p}
     if kind == "annot_lr":
@@ -273,6 +278,8 @@ def gen_clf_spec(g: SimRng, kind, classes, allow_cost=True):
 
 def gen_reg_spec(g: SimRng, kind):
     p = {"random_state": g.randrange(0, 100)}
+    if g.chance(0.25):
+        p["missing_label"] = -12345.0  # a non-NaN sentinel that is never a target value
     if kind in ("nic", "nwr"):
         r = g.random()
         if r < 0.4:
@@ -308,7 +315,9 @@ def gen_dataset(g: SimRng, d, classes, task, na=0, pattern=None, n=None):
             keep = lab != K - 1
             y[~keep] = classes[0]
     else:
-        y = np.round(1.5 * X[:, 0] / scale + 0.3 * nr.normal(size=n), 4)
+        # large offsets: numerically naive moment formulas (E[y^2] - E[y]^2) lose all precision there
+        offset = g.pick([0.0, 0.0, 0.0, 1.0e3, 1.0e9])
+        y = np.round(offset + 1.5 * X[:, 0] / scale + 0.3 * nr.normal(size=n), 4)
     miss = np.zeros(n, dtype=bool)
     if pattern == "all_missing":
         miss[:] = True
@@ -333,6 +342,14 @@ def gen_dataset(g: SimRng, d, classes, task, na=0, pattern=None, n=None):
     else:
         yl = [None if m else float(v) for v, m in zip(y, miss)]
     return {"X": X.tolist(), "y": yl, "w": None if w is None else w.tolist(), "pattern": pattern, "scale": scale}
+
+
+def encode_missing(y, spec):
+    """The oracles work on NaN-coded labels; the estimator receives its own missing-label sentinel."""
+    ml = spec.get("params", {}).get("missing_label")
+    if ml is None:
+        return y
+    return np.where(np.isnan(y), float(ml), y)
 
 
 def to_arr_y(y):
@@ -504,7 +521,7 @@ class LifeCheckBase(Check):
     @staticmethod
     def apply_fit(est, op, ds, spec):
         X = np.array(ds["X"], dtype=float)
-        y = to_arr_y(ds["y"])
+        y = encode_missing(to_arr_y(ds["y"]), spec)
         w = None if ds.get("w") is None else np.array(ds["w"], dtype=float)
         _FAULT["armed"] = bool(op.get("fail"))
         try:
@@ -1151,9 +1168,8 @@ class C15Check(LifeCheckBase):
                         if not np.allclose(sd, want_sd, rtol=1e-9, atol=1e-12):
                             ctx.violate("fallback-value", subj, f"op {t}: fall-back std is {np.asarray(sd)[:3]} instead of {want_sd}", cond)
                             break
-                elif not np.isfinite(mu).all():
-                    ctx.violate("prediction-not-finite", subj, f"op {t}: predict returned non-finite values {mu[:3]} after a successful fit on {nl} labels", cond)
-                    break
+                # (finiteness of a successfully fitted scikit-learn estimator's own predictions is the collaborator's
+                # business -- BayesianRidge / GaussianProcessRegressor return NaN for targets around 1e9 -- not judged)
             # ---- coherence with the target distribution
             if spec["kind"] in ("nic", "nwr", "skl_normal"):
                 if not self._coherence(ctx, est, spec, Xq, subj, cond, t, nl):
@@ -1181,7 +1197,7 @@ class C15Check(LifeCheckBase):
         if proper_prior or nl >= 2:
             ctx.probe("std_checked")
             sdv = np.asarray(sd, dtype=float)
-            if spec["kind"] != "nwr" and (not np.isfinite(sdv).all() or (sdv < 0).any()):
+            if spec["kind"] == "nic" and (not np.isfinite(sdv).all() or (sdv < 0).any()):
                 ctx.violate("std-invalid", subj, f"op {t}: standard deviation {sdv[:4]} is not finite and non-negative ({nl} labels, proper prior: {proper_prior})", cond)
                 return False
         try:
